@@ -248,10 +248,12 @@ pub fn a64_check(rec: &mut Recorder, c: &A64Case) -> Result<(), String> {
             if written.len() > 16 {
                 return rec.fail(&sig("entry-too-long"), format!("{} bytes written at the entry", written.len()));
             }
-            if g.jit_memory != c.jit {
+            let alloc = ev.iter().find_map(|e| if let Event::Alloc { size, .. } = e { Some(*size) } else { None }).unwrap_or(0);
+            // (an installation that needs no trampoline asks for none and owns none)
+            let no_trampoline = g.jit_memory == 0 && !ev.iter().any(|e| matches!(e, Event::Alloc { .. }));
+            if g.jit_memory != c.jit && !no_trampoline {
                 return rec.fail(&sig("guard-jit-mismatch"), format!("guard.jit_memory {:#x} != allocated {:#x}", g.jit_memory, c.jit));
             }
-            let alloc = ev.iter().find_map(|e| if let Event::Alloc { size, .. } = e { Some(*size) } else { None }).unwrap_or(0);
             for e in &ev {
                 if let Event::Inject { addr, bytes } = e {
                     if addr.wrapping_sub(c.jit) > alloc as u64 || addr.wrapping_sub(c.jit) + bytes.len() as u64 > alloc as u64 {
@@ -574,10 +576,12 @@ pub fn x86_check(rec: &mut Recorder, prop: &str, c: &X86Case) -> Result<(), Stri
     if wr.len() > 16 {
         return rec.fail(&sig("entry-too-long"), format!("{} bytes written at the entry (slot is 16)", wr.len()));
     }
-    if g.jit_memory != c.jit {
+    let alloc = ev.iter().find_map(|e| if let Event::Alloc { size, .. } = e { Some(*size) } else { None }).unwrap_or(0);
+    // (an installation that needs no trampoline asks for none and owns none)
+    let no_trampoline = g.jit_memory == 0 && !ev.iter().any(|e| matches!(e, Event::Alloc { .. }));
+    if g.jit_memory != c.jit && !no_trampoline {
         return rec.fail(&sig("guard-jit-mismatch"), format!("guard.jit_memory {:#x} != allocation {:#x}", g.jit_memory, c.jit));
     }
-    let alloc = ev.iter().find_map(|e| if let Event::Alloc { size, .. } = e { Some(*size) } else { None }).unwrap_or(0);
     for e in &ev {
         if let Event::Inject { addr, bytes } = e {
             if addr.wrapping_sub(c.jit) > alloc as u64 || addr.wrapping_sub(c.jit) + bytes.len() as u64 > alloc as u64 {
@@ -585,7 +589,7 @@ pub fn x86_check(rec: &mut Recorder, prop: &str, c: &X86Case) -> Result<(), Stri
             }
         }
     }
-    if g.jit_size == 0 || g.jit_size < alloc.min(1) {
+    if !no_trampoline && (g.jit_size == 0 || g.jit_size < alloc.min(1)) {
         return rec.fail(&sig("guard-jit-size"), format!("guard.jit_size {}", g.jit_size));
     }
     let m = SimMem;
